@@ -86,13 +86,16 @@ TStep ==
     /\ oi' = 1
     /\ UNCHANGED mainSeen
 
+\* (on a real clock - the real-filesystem tier, untimed - the observations of one step may be a
+\* millisecond apart)
 TConsume ==
     LET r == Rec[l] IN
     /\ ~OutDone
-    /\ r.t = now
+    /\ IF Timed THEN r.t = now ELSE r.t >= now
+    /\ now' = r.t
     /\ Match(r, W.out[oi + 1])
     /\ oi' = oi + 1
-    /\ UNCHANGED <<wvars, mainSeen>>
+    /\ UNCHANGED <<evs, cap, ecap, queue, pending, errq, W, main, hist, mainSeen>>
 
 \* error-handler calls when they are not being judged: consumed, and the spec's hook follows suit
 TErrorFree ==
